@@ -79,6 +79,47 @@ def image_as_tar_expectation(summary, no_xattr=False, no_links=False):
     return exp, links
 
 
+def resolved_view(members, links):
+    """{name: attributes} with every hard link replaced by what it points to; None if a link does not point at an earlier member"""
+    out = dict(members)
+    for name, target in links:
+        t = target.rstrip(b"/")
+        if t not in out:
+            return None, (name, target)
+        out[name] = out[t]
+    return out, None
+
+
+def path_option_expectation(summary, subdirs, keep_as_dir, root_becomes, no_xattr):
+    """what sqfs2tar --subdir/--keep-as-dir/--root-becomes should contain, hard links resolved (which name of a multiply linked
+    inode is written as the file and which as links is the tool's business): names -> attributes"""
+    full = {}
+    for path in sorted(summary):
+        t, mode, uid, gid, mtime, extra, xa, ino, nlink = summary[path]
+        if path == b"" or t == "sock" or any(summary.get(path[:i], ("",))[0] == "sock" for i in range(len(path))):
+            continue
+        full[path] = (t, mode, uid, gid, mtime, extra, () if no_xattr else tuple(xa))
+    sel = {}
+    if not subdirs:
+        sel = dict(full)
+    elif len(subdirs) == 1 and not keep_as_dir:
+        d = subdirs[0]
+        for pth, v in full.items():
+            if pth.startswith(d + b"/"):
+                sel[pth[len(d) + 1:]] = v
+    else:
+        for pth, v in full.items():
+            if any(pth == d or pth.startswith(d + b"/") or d.startswith(pth + b"/") for d in subdirs):
+                sel[pth] = v
+    if root_becomes is not None:
+        t, mode, uid, gid, mtime, extra, xa, ino, nlink = summary[b""]
+        out = {root_becomes: ("dir", mode, uid, gid, mtime, None, () if no_xattr else tuple(xa))}
+        for pth, v in sel.items():
+            out[root_becomes + b"/" + pth] = v
+        sel = out
+    return sel
+
+
 def dict_diff(a, b, what):
     out = []
     for k in sorted(set(a) | set(b)):
@@ -193,6 +234,43 @@ def work(a):
             if d:
                 V("sqfs2tar-differs:" + re.sub(r"b'.*?'|b\".*?\"|\d+", "_", d[0])[:50], "; ".join(d[:4]), 2)
                 return res
+            # ---- stage 2b: the path options of sqfs2tar (--subdir, --keep-as-dir, --root-becomes)
+            dirs_in_img = sorted(p for p, v in summ1.items() if p and v[0] == "dir" and not any(summ1.get(p[:i], ("",))[0] == "sock" for i in range(len(p))))
+            for _ in range(2):
+                ro = rng(seed, "pathopts", _)
+                subdirs = ro.sample(dirs_in_img, min(len(dirs_in_img), ro.choice([0, 1, 1, 1, 2]))) if dirs_in_img else []
+                keep = bool(subdirs) and ro.random() < 0.4
+                rb = ro.choice([None, None, b".", b"newroot", b"a/b"])
+                if not subdirs and rb is None:
+                    rb = b"rootdir"
+                c3 = pipelines.Case(seed, "sqfs2tar")
+                c3.tool = "sqfs2tar"
+                c3.outputs = {"stdout": None}
+                nox3 = ro.random() < 0.2
+                c3.argv = (["-X"] if nox3 else []) + [x for d in subdirs for x in ("-d", os.fsdecode(d))] + (["-k"] if keep else []) + \
+                    (["-r", os.fsdecode(rb)] if rb is not None else []) + ["img1.sqfs"]
+                o3 = pipelines.run_case(bdir, c3, s, io_plan(ro), "plain", timeout=180, cpu=60)
+                res["conv"] += 1
+                what = "sqfs2tar %s" % " ".join(c3.argv[:-1])
+                if o3.rc != 0:
+                    V("sqfs2tar-path-options-failed", "%s: %s %s" % (what, o3.verdict, o3.stderr[-200:].decode(errors="replace")), 2)
+                    break
+                shutil.copyfile(os.path.join(s, ".stdout"), os.path.join(s, "tar1p.tar"))
+                try:
+                    gotp, glp = parse_tar(os.path.join(s, "tar1p.tar"))
+                except Exception as e:
+                    V("sqfs2tar-path-options-output-unreadable", "%s: %s: %s" % (what, type(e).__name__, e), 2)
+                    break
+                view, dangling = resolved_view(gotp, glp)
+                if view is None:
+                    V("sqfs2tar-path-options-dangling-hard-link", "%s: link %r -> %r names no earlier member of the archive" % (what, dangling[0], dangling[1]), 2)
+                    break
+                expp = path_option_expectation(summ1, subdirs, keep, rb.rstrip(b"/") if rb is not None else None, nox3)
+                dp = dict_diff(expp, view, "path options")
+                if dp:
+                    V("sqfs2tar-path-options-differ:" + re.sub(r"b'.*?'|b\".*?\"|\d+", "_", dp[0])[:50], "%s: %s" % (what, "; ".join(dp[:4])), 2)
+                    break
+                res["stages"]["pathopts"] = res["stages"].get("pathopts", 0) + 1
             rc, err, snap = gnu_tar_extract(os.path.join(s, "tar1.tar"), os.path.join(s, "x"))
             # what the host file system cannot hold (xattr namespaces, names / link targets beyond its limits) says nothing about the archive
             if rc != 0 and b"xattr" not in err and b"Operation not" not in err and b"File name too long" not in err:
